@@ -434,6 +434,56 @@ type c07Case struct {
 	plan         map[string]int
 	injects      []c07Injection
 	nHold, nDup  int
+	// periodic injection ("flood") of fabricated messages claiming a sender:
+	// delivered to every receiver every few milliseconds for the whole run, so
+	// the acceptance window of EVERY state is hit, also for message types of
+	// later phases that arrive before the genuine ones
+	floods []c07Flood
+}
+
+type c07Flood struct {
+	kind    string // other-session | from-excluded | wrong-index
+	claimed group.MemberIndex
+	keyOf   group.MemberIndex // whose operator key authenticates the message
+	typeIdx int
+}
+
+// c07Fabricate builds a well-formed message of the given type with fresh
+// contents (random TSS payload bytes, fresh ephemeral keys).
+func c07Fabricate(typeIdx int, sender group.MemberIndex, session string, members int) []byte {
+	payload := make([]byte, 96)
+	for i := range payload {
+		payload[i] = byte(17*i + 3*typeIdx + int(sender))
+	}
+	var m net.TaggedMarshaler
+	switch typeIdx {
+	case 0:
+		keys := map[group.MemberIndex]*ephemeral.PublicKey{}
+		for i := 1; i <= members; i++ {
+			if group.MemberIndex(i) == sender {
+				continue
+			}
+			kp, err := ephemeral.GenerateKeyPair()
+			if err != nil {
+				return nil
+			}
+			keys[group.MemberIndex(i)] = kp.PublicKey
+		}
+		m = &ephemeralPublicKeyMessage{senderID: sender, ephemeralPublicKeys: keys, sessionID: session}
+	case 1:
+		m = &tssRoundOneMessage{senderID: sender, broadcastPayload: payload, sessionID: session}
+	case 2:
+		m = &tssRoundTwoMessage{senderID: sender, broadcastPayload: payload, peersPayload: map[group.MemberIndex][]byte{}, sessionID: session}
+	case 3:
+		m = &tssRoundThreeMessage{senderID: sender, broadcastPayload: payload, sessionID: session}
+	default:
+		m = &tssFinalizationMessage{senderID: sender, sessionID: session}
+	}
+	b, err := m.Marshal()
+	if err != nil {
+		return nil
+	}
+	return b
 }
 
 func (c *c07Case) describe() string {
@@ -450,7 +500,11 @@ func (c *c07Case) describe() string {
 		}
 	}
 	sort.Strings(holds)
-	return fmt.Sprintf("group=%d-of-%d excluded=%v inject=%v schedule=%v", c.n-c.dishonest, c.n, c.excluded, inj, holds)
+	var fl []string
+	for _, f := range c.floods {
+		fl = append(fl, fmt.Sprintf("%s:claims%d/t%d", f.kind, f.claimed, f.typeIdx))
+	}
+	return fmt.Sprintf("group=%d-of-%d excluded=%v inject=%v flood=%v schedule=%v", c.n-c.dishonest, c.n, c.excluded, inj, fl, holds)
 }
 
 type c07Outcome struct {
@@ -515,6 +569,18 @@ loop:
 		case <-done:
 			break loop
 		case <-tick.C:
+			for _, f := range c.floods {
+				session := "session-verif"
+				if f.kind == "other-session" {
+					session = "another-session"
+				}
+				if raw := c07Fabricate(f.typeIdx, f.claimed, session, c.n); raw != nil {
+					for _, r := range c.operating {
+						hub.deliver(r, c07Types[f.typeIdx], raw, pubKeys[f.keyOf], "flood-"+f.kind)
+					}
+					hub.count("flood:" + f.kind)
+				}
+			}
 			hub.mu.Lock()
 			idle := time.Since(hub.lastSend)
 			hub.mu.Unlock()
@@ -599,6 +665,33 @@ func c07Generate(t *rapid.T, n, dishonest int) *c07Case {
 			in.claimed = in.triggerSender
 		}
 		c.injects = append(c.injects, in)
+	}
+	// floods: 0..2 periodic injections
+	nFlood := rapid.IntRange(0, 2).Draw(t, "floods")
+	for i := 0; i < nFlood; i++ {
+		kinds := []string{"other-session", "other-session", "wrong-index"}
+		if len(c.excluded) > 0 {
+			kinds = append(kinds, "from-excluded", "from-excluded")
+		}
+		f := c07Flood{kind: rapid.SampledFrom(kinds).Draw(t, "floodKind"), typeIdx: rapid.IntRange(0, len(c07Types)-1).Draw(t, "floodType")}
+		switch f.kind {
+		case "other-session":
+			f.claimed = rapid.SampledFrom(c.operating).Draw(t, "floodSender")
+			f.keyOf = f.claimed
+		case "wrong-index":
+			f.keyOf = rapid.SampledFrom(c.operating).Draw(t, "floodKey")
+			var others []group.MemberIndex
+			for _, o := range c.operating {
+				if o != f.keyOf {
+					others = append(others, o)
+				}
+			}
+			f.claimed = rapid.SampledFrom(others).Draw(t, "floodClaimed")
+		case "from-excluded":
+			f.claimed = rapid.SampledFrom(c.excluded).Draw(t, "floodExcluded")
+			f.keyOf = f.claimed
+		}
+		c.floods = append(c.floods, f)
 	}
 	return c
 }
@@ -693,6 +786,9 @@ func c07Property(st *verifkit.Stats, n, dishonest int) func(t *rapid.T) {
 		}
 		for _, in := range c.injects {
 			labels = append(labels, "inject:"+in.kind)
+		}
+		for _, f := range c.floods {
+			labels = append(labels, fmt.Sprintf("flood:%s:type%d", f.kind, f.typeIdx))
 		}
 		nt := len(c.excluded) > 0 || len(c.injects) > 0 || out.stats["held"] > 0 || out.stats["duplicated"] > 0
 		st.Case(nt, c.describe(), labels...)
